@@ -124,6 +124,13 @@ func (s *Server) Serve(l net.Listener, initializedCh chan struct{}) error {
 
 	defer l.Close()
 
+	// Shutdown might have been called before the listener was stored: it had nothing to close
+	select {
+	case <-s.getDoneChan():
+		return nil
+	default:
+	}
+
 	lastSession := uint32(0)
 
 	var tempDelay time.Duration
